@@ -32,8 +32,9 @@
 //!                register" (`is_next_def_cast_to_base_register`), with all four integer casts.  MUST AGREE on the unchanged tree.
 //!   c11.castsmall  the same over a table that additionally has a base register whose LOW part has no name (`R8` with only
 //!                `R8_hi` = bytes [4, 8)): its low bytes are then the BASE register NAME at a smaller size (`R8:4`, the same-name case
-//!                the code documents in `into_subregister`).  Exploration: `R8_hi:2 = ..; R8:4 = INT_ZEXT R8_hi:2` is merged by the
-//!                cast special case into `R8:4 = INT_ZEXT(..)`, which still writes a sub-register (finding F1).
+//!                the code documents in `into_subregister`), so `R8_hi:2 = ..; R8:4 = INT_ZEXT R8_hi:2` occurs: a cast into the base
+//!                register's name that does NOT write the whole base register and must not be merged (finding F1, repaired in /repo
+//!                commit 19618dc; seeded/findings/C11-castsmall.json).  MUST AGREE on the unchanged tree.
 use crate::util::{mask, mk, val, Rng};
 use cwe_checker_lib::intermediate_representation as ir;
 use cwe_checker_lib::intermediate_representation::{
@@ -75,7 +76,7 @@ fn table_of(mode: Mode) -> Vec<RegisterProperties> {
         rp("ZF", "ZF", 0, 1), rp("CF", "CF", 0, 1),
     ];
     if mode == Mode::CastSmall {
-        // a base register whose LOW part has no name of its own: its low bytes are `R8:4`, `R8:2`, `R8:1`
+        // a base register whose LOW part has no name of its own: its low bytes are `R8:4`, `R8:2`, `R8:1` (domain of finding F1)
         t.push(rp("R8", "R8", 0, 8));
         t.push(rp("R8_hi", "R8", 4, 4));
     }
